@@ -74,6 +74,10 @@ def verify(k, prop, cls=None, invariants=None, calls=None, hooks=None, extra_pre
     def ob(name, s1, goal, kind='code', meta=None):
         if isinstance(goal, bool): goal = BoolVal(goal)
         hyps = list(s1.pc)
+        if name == 'delivery_errors_are_not_swallowed' and z3.is_false(z3.simplify(goal)):
+            # the goal is the constant False: the obligation says "this path does not exist"; decided from the quantifier-free path facts
+            from .engine import _has_quant_cached
+            hyps = [f for f in hyps if not _has_quant_cached(f)]
         if ':qf:' in name:
             # a quantifier-free clause over locals/ghosts: decided from the quantifier-free path facts alone (see engine.emit)
             from .engine import _has_quant_cached
